@@ -43,6 +43,54 @@ def inf_conversions(ctx, rid, floor=12):
                sample={"sites": sorted({k.split("::")[-1] for k, _, _, _ in sites})})
 
 
+def counter_plain_sum(ctx, sites):
+    """definition agreement: the violation total is a sum of positive parts, the counter total is a plain sum"""
+    for st in sites:
+        if st.self_param is None:
+            continue
+        fdx = ctx.an.fd(st.fn)
+        ops = dict(zip(st.instr.rv["fields"], st.instr.ops)) if st.kind == "aggregate" else {}
+        if not ops:
+            continue
+        cnt = fdx.slice_operand_pure(st.instr, ops["total_maintenance_counter"])
+        vio = fdx.slice_operand_pure(st.instr, ops["total_maintenance_violation"])
+        o = ctx.ob("R2.%s.counter-is-a-plain-sum" % common.short(st.fn), "T9", st.fn,
+                   "%s: the total counter is updated without clamping, the total violation with positive parts" % common.short(st.fn))
+        o.loc = st.instr.line()
+        cmax = has_method(cnt["atoms"], "core::cmp::Ord::max")
+        vmax = has_method(vio["atoms"], "core::cmp::Ord::max")
+        ctx.decide(o, vmax and not cmax and field(TRANSITION, "total_maintenance_counter") in cnt["atoms"]
+                   and field(TRANSITION, "total_maintenance_violation") in vio["atoms"],
+                   "violation uses max(0), counter does not",
+                   ("the counter total is clamped with max(..): cycles with slack (negative counter) make every neighbour look better, the "
+                    "transition search never terminates" if cmax else "the violation total is not built from positive parts / old totals"),
+                   loc=st.instr.line())
+
+
+def neighbour_wiring(ctx, rid):
+    """the predecessor's end depot and the successor's start depot are looked up under their own keys"""
+    key = TR("end_depot_of_predecessor_and_start_depot_of_successor")
+    o, fd = ctx.require_fn("%s.neighbour-depots-use-own-keys" % rid, "T1", key,
+                           "the predecessor's end depot is read from the predecessor's tour only, the successor's start depot from the successor's tour only")
+    if fd is None:
+        return
+    names = {fd.body.local_name(l): l for l in range(len(fd.body.locals)) if fd.body.local_name(l)}
+    if "predecessor" not in names or "successor" not in names:
+        ctx.undecided(o, "locals `predecessor` / `successor` not found (renamed?)")
+        return
+    tup = [i for i in fd.body.instrs() if i.kind == "assign" and i.place.local == 0 and i.rv_kind() == "agg" and i.rv.get("ak") == "tuple" and len(i.ops) == 2]
+    if len(tup) != 1:
+        ctx.undecided(o, "returned pair not recognised")
+        return
+    e0 = fd.slice_operand_pure(tup[0], tup[0].ops[0])
+    e1 = fd.slice_operand_pure(tup[0], tup[0].ops[1])
+    ok0 = call(T("end_depot")) in e0["atoms"] and names["predecessor"] in e0["locals"] and names["successor"] not in e0["locals"]
+    ok1 = call(T("start_depot")) in e1["atoms"] and names["successor"] in e1["locals"] and names["predecessor"] not in e1["locals"]
+    ctx.decide(o, ok0 and ok1, "(end_depot(tour of predecessor), start_depot(tour of successor))",
+               "the %s is looked up with the other neighbour's key: during batched updates the depot-to-depot distance of the cycle is "
+               "computed from the wrong tour" % ("successor's start depot" if ok0 else "predecessor's end depot"), loc=tup[0].line())
+
+
 def rules(ctx):
     common.who_may_construct(ctx, "R1.transition-producers", TRANSITION, [TRANSITION + "::*"],
                              "Transition values are built only inside impl Transition")
@@ -65,27 +113,7 @@ def rules(ctx):
         ctx.decide(o, not bad, "cycles/cycle_lookup/empty_cycles all rebuilt",
                    "%s inherits %s unchanged from self" % (fn, ", ".join(bad)), loc=ss[0].instr.line(), sample=row)
     common.lost_update_rule(ctx, "R3", TRANSITION, sites)
-    # definition agreement: the violation total is a sum of positive parts, the counter total is a plain sum
-    for st in sites:
-        if st.self_param is None:
-            continue
-        fdx = ctx.an.fd(st.fn)
-        ops = dict(zip(st.instr.rv["fields"], st.instr.ops)) if st.kind == "aggregate" else {}
-        if not ops:
-            continue
-        cnt = fdx.slice_operand_pure(st.instr, ops["total_maintenance_counter"])
-        vio = fdx.slice_operand_pure(st.instr, ops["total_maintenance_violation"])
-        o = ctx.ob("R2.%s.counter-is-a-plain-sum" % common.short(st.fn), "T9", st.fn,
-                   "%s: the total counter is updated without clamping, the total violation with positive parts" % common.short(st.fn))
-        o.loc = st.instr.line()
-        cmax = has_method(cnt["atoms"], "core::cmp::Ord::max")
-        vmax = has_method(vio["atoms"], "core::cmp::Ord::max")
-        ctx.decide(o, vmax and not cmax and field(TRANSITION, "total_maintenance_counter") in cnt["atoms"]
-                   and field(TRANSITION, "total_maintenance_violation") in vio["atoms"],
-                   "violation uses max(0), counter does not",
-                   ("the counter total is clamped with max(..): cycles with slack (negative counter) make every neighbour look better, the "
-                    "transition search never terminates" if cmax else "the violation total is not built from positive parts / old totals"),
-                   loc=st.instr.line())
+    counter_plain_sum(ctx, sites)
     # the empty-cycle entry removed is the one of the cycle being filled
     o, fdx = ctx.require_fn("R3.add_vehicle_at_the_end.removes-own-empty-entry", "T1", TR("add_vehicle_at_the_end"),
                             "add_vehicle_at_the_end removes exactly the entry of the target cycle from the list of empty cycles")
@@ -101,6 +129,7 @@ def rules(ctx):
         ctx.decide(o, ok, "the write to empty_cycles depends on new_cycle_idx",
                    "the entry removed from empty_cycles does not depend on the target cycle index (e.g. pop()): a still-empty cycle is "
                    "forgotten and an occupied one stays listed as reusable")
+    neighbour_wiring(ctx, "R3")
     inf_conversions(ctx, "R4")
     # R5: optimisation never worsens
     objective.level_order(ctx, "R5.transition-objective", TLS + "::transition_objective",
@@ -139,3 +168,7 @@ def rules(ctx):
         ok = len(a) == 1 and slice_has_call_def(arg_slice(fd, a[0], 0, control=False), TR("remove_vehicle")) is not None
         ctx.decide(o, ok, "receiver is remove_vehicle's result", "receiver of add_vehicle_at_the_end is not remove_vehicle's result")
     guarded_arith(ctx, "R6")
+    from .C10 import cycles_follow_vehicles
+    before = len(ctx.obligations)
+    cycles_follow_vehicles(ctx, None)
+    ctx.obligations[before:] = [o for o in ctx.obligations[before:] if "batched-updates" in o.id]
